@@ -52,6 +52,7 @@ Vars == [ints  |-> <<I(1), I(2), I(2), I(3)>>,
          half  |-> <<DItem(DMake(FALSE, <<6475, 7483, 214>>, -1))>>,       \* 2147483647.5
          neg   |-> <<I(-4)>>,
          \* Booleans (the other inputs flip a single Boolean: a compiled `%tt and x` reused with the opposite binding)
+         alt   |-> <<I(1), Dec(FALSE, 25, -1), I(3), Dec(FALSE, 5, -1), I(2)>>,      \* Integer and Decimal items alternating
          tt    |-> <<B(TRUE)>>,
          ff    |-> <<B(FALSE)>>,
          tf    |-> <<B(TRUE), B(FALSE)>>,
@@ -61,11 +62,12 @@ Env == [forest |-> Forest, sch |-> Sch, vars |-> Vars, kinds |-> Kinds]
 
 (* The OTHER inputs: every compiled program is evaluated a second time, reused, on the twin patient MR4 alone and with  *)
 (* every environment collection changed - several items: reversed and the last one dropped; one Integer: a number on    *)
-(* the other side of zero; one String: a letter appended; anything else: the Integer 5; none: the Integer 1.            *)
+(* the other side of zero (7: the Decimal 2.5); one String: a letter appended; anything else: the Integer 5; none: the Integer 1.            *)
 OtherOf(c) ==
   IF Len(c) > 1 THEN [j \in 1..(Len(c) - 1) |-> c[Len(c) - j]]
   ELSE IF Len(c) = 0 THEN <<I(1)>>
-  ELSE CASE c[1].t = "i" -> <<I(IF c[1].i > 0 THEN 0 - (c[1].i \div 2) - 1 ELSE 0 - (c[1].i \div 2) + 11)>>
+  ELSE CASE c[1].t = "i" /\ c[1].i = 7 -> <<Dec(FALSE, 25, -1)>>       \* another TYPE, not only another value
+         [] c[1].t = "i" -> <<I(IF c[1].i > 0 THEN 0 - (c[1].i \div 2) - 1 ELSE 0 - (c[1].i \div 2) + 11)>>
          [] c[1].t = "s" -> <<S(c[1].cp \o <<122>>)>>
          [] c[1].t = "b" -> <<B(~c[1].b)>>
          [] OTHER -> <<I(5)>>
@@ -197,7 +199,7 @@ DtPeers  == {Fld(Obn, "issued"), Ix(Fld(Fld(Obn, "component"), "value"), 5), Ix(
              Fld(Fld(Pat, "meta"), "lastUpdated"), Fld(Fld(Fld(Pat, "birthDate"), "extension"), "value"), Fld(Pat, "birthDate")}
 (* operands of the Boolean operators that are FHIR elements: a boolean, a choice-typed boolean, a code, several items *)
 ElemOperands == {Fld(Pat, "active"), Fld(Pat, "deceased"), Fld(Pat, "gender"), Fld(Pat, "name"), Fld(Fld(Pat, "communication"), "preferred"),
-                 Var("tt"), Var("ff"), Var("tf"), Var("none")}
+                 Var("tt"), Var("ff"), Var("alt"), Var("tf"), Var("none")}
 UrlBirth == <<104, 116, 116, 112, 58, 47, 47, 104, 108, 55, 46, 111, 114, 103, 47, 102, 104, 105, 114, 47, 83, 116, 114, 117, 99, 116, 117, 114, 101, 68, 101, 102, 105, 110, 105, 116, 105, 111, 110, 47, 112, 97, 116, 105, 101, 110, 116, 45, 98, 105, 114, 116, 104, 84, 105, 109, 101>>
 UrlA == <<104, 116, 116, 112, 58, 47, 47, 101, 120, 97, 109, 112, 108, 101, 46, 111, 114, 103, 47, 101, 120, 116, 47, 97>>
 
@@ -310,6 +312,12 @@ StepCat(x, c, cat) ==
        [] cat = 14 ->      \* operations whose operands or arguments are environment variables (their values differ in the cross evaluation)
             (IF nums THEN Tag({Bin(op, x, v) : op \in {"=", "<", ">", "<=", ">="}, v \in {Var("seven"), Var("neg"), Var("big"), Var("min")}}, "C05")
                           \cup Tag({Call(x, g, <<Bin(op, This, v)>>) : g \in {"where", "select", "all", "exists"}, op \in {"<", ">", "="}, v \in {Var("seven"), Var("neg")}}, "C05")
+                          \* a variable on the LEFT of the expression so far (a literal, when the chain has just started: `%seven < 2` -
+                          \* the reused evaluation binds %seven to a Decimal) and per-item comparisons against a literal over items of
+                          \* alternating types
+                          \cup Tag({Bin(op, v, x) : op \in {"=", "!=", "<", ">", "<=", ">="}, v \in {Var("seven"), Var("neg"), Var("big")}}, "C05")
+                          \cup Tag({Call(Var("alt"), g, <<Bin(op, This, x)>>) : g \in {"where", "select"}, op \in {"<", ">", "<=", "=", "!="}}, "C05")
+                          \cup Tag({Bin(op, v, x) : op \in {"+", "-", "*"}, v \in {Var("seven"), Var("neg")}}, "C08")
                           \cup Tag({Bin(op, x, v) : op \in {"+", "-", "*"}, v \in {Var("seven"), Var("neg")}}, "C08")
              ELSE IF bools THEN Tag({Bin(op, x, v) : op \in {"and", "or", "xor", "implies"}, v \in {Var("tt"), Var("ff")}}
                                     \cup {Bin(op, v, x) : op \in {"and", "or", "xor", "implies"}, v \in {Var("tt"), Var("ff")}}
@@ -319,7 +327,8 @@ StepCat(x, c, cat) ==
              ELSE Tag({Call(x, g, <<v>>) : g \in {"skip", "take"}, v \in {Var("seven"), Var("neg"), Call(Var("ints"), "first", <<>>), Call(Var("ints"), "last", <<>>)}}, OrEmpty(c, "C10")))
        [] OTHER -> Tag({Fld(x, f) : f \in fs}, "C02") \cup Tag({Call(x, "first", <<>>), Call(x, "last", <<>>)}, "C10")
 
-Starts == {Var("tt"), Var("ff"), Var("repl"), Call(Var("repl"), "first", <<>>), Call(Var("repl"), "last", <<>>), Ix(Var("repl"), 1), Var("uni"), Var("uni1"), Var("looks"), Var("digits"), Var("min"), Var("half"), Pat, Fld(Pat, "name"), Fld(Pat, "telecom"), Fld(Pat, "identifier"), Fld(Fld(Pat, "name"), "given"), Fld(Fld(Pat, "name"), "family"),
+Starts == {This, Call(This, "take", <<Lit("1", I(1))>>), Call(This, "take", <<Lit("2", I(2))>>), Call(This, "skip", <<Lit("0", I(0))>>), Call(This, "tail", <<>>),
+           Var("tt"), Var("ff"), Var("alt"), Var("repl"), Call(Var("repl"), "first", <<>>), Call(Var("repl"), "last", <<>>), Ix(Var("repl"), 1), Var("uni"), Var("uni1"), Var("looks"), Var("digits"), Var("min"), Var("half"), Pat, Fld(Pat, "name"), Fld(Pat, "telecom"), Fld(Pat, "identifier"), Fld(Fld(Pat, "name"), "given"), Fld(Fld(Pat, "name"), "family"),
            Fld(Pat, "contact"), Fld(Pat, "extension"), Fld(Pat, "birthDate"), Fld(Pat, "active"), Fld(Pat, "multipleBirth"), Fld(Pat, "deceased"),
            Fld(Fld(Pat, "telecom"), "rank"), Fld(Fld(Pat, "extension"), "value"), Fld(Fld(Pat, "meta"), "lastUpdated"), Fld(Pat, "gender"),
            Fld(Pat, "id"), Fld(Fld(Pat, "address"), "line"), Fld(Fld(Pat, "name"), "suffix"),
